@@ -36,12 +36,14 @@ Rep(n, x) == [k \in 1..n |-> x]
 Proj(w)   == [items |-> w, sizes |-> <<Len(w[1]), Len(w[2])>>, mod64 |-> <<0, 0>>]
 Set1(i, s) == [v EXCEPT ![i] = s]
 
-Init == v = <<<<>>, <<>>>> /\ last = [a |-> "Init", arg |-> <<>>, exp |-> Proj(<<<<>>, <<>>>>)]
+Init == v = <<<<>>, <<>>>> /\ last = [a |-> "Init", arg |-> <<>>, cls |-> "", exp |-> Proj(<<<<>>, <<>>>>)]
 
 TypeOK == v \in Seq(Vals \cup {Default}) \X Seq(Vals \cup {Default})
 
 -------------------------------------------------------------------------------
-Step(a, arg, w, ret) == v' = w /\ last' = [a |-> a, arg |-> arg, exp |-> ret @@ Proj(w)]
+\* `cls`: the class of the arguments a finding is filed under (only Allocate distinguishes classes)
+StepC(a, arg, w, ret, cls) == v' = w /\ last' = [a |-> a, arg |-> arg, cls |-> cls, exp |-> ret @@ Proj(w)]
+Step(a, arg, w, ret) == StepC(a, arg, w, ret, "")
 Void == [ret |-> "void"]
 
 PushBack(i, x) == Len(v[i]) < MaxLen /\ Step("PushBack", [i |-> i, x |-> x], Set1(i, Append(v[i], x)), Void)
@@ -80,10 +82,11 @@ Insert(i, pos, x) ==
 \*   anything else (0, or huge but within max_size()): not length_error; null / memory / bad_alloc are all fine
 Allocate(rel, d) ==
   /\ Representable(ByteSized, rel, d)
-  /\ Step("Allocate", [rel |-> rel, d |-> d], v,
-          IF MustThrow(rel, d) THEN [ret |-> "length_error", len_err |-> TRUE]
-          ELSE IF rel = "abs" /\ d > 0 THEN [ret |-> "ok", amod64 |-> 0, len_err |-> FALSE]
-          ELSE [len_err |-> FALSE])
+  /\ StepC("Allocate", [rel |-> rel, d |-> d], v,
+           IF MustThrow(rel, d) THEN [ret |-> "length_error", len_err |-> TRUE]
+           ELSE IF rel = "abs" /\ d > 0 THEN [ret |-> "ok", amod64 |-> 0, len_err |-> FALSE]
+           ELSE [len_err |-> FALSE],
+           IF MustThrow(rel, d) THEN "n>max_size" ELSE IF rel = "abs" /\ d > 0 THEN "n=small" ELSE IF rel = "abs" THEN "n=0" ELSE "n<=max_size")
 
 Next ==
   \/ \E i \in 1..2, x \in Vals : PushBack(i, x)
